@@ -3,12 +3,17 @@
    and the object invariants of properties C06 / C18 *)
 EXTENDS ThresholdSig, Json
 
-CONSTANTS MaxLen, Alphabet   \* Alphabet: "full" | "adds"
+CONSTANTS MaxLen, Alphabet   \* Alphabet: "full" | "adds" | "core"
 
 VARIABLES st, hist
 vars == <<st, hist>>
 
+Core == {Op("TrustedAdd", i, k) : i \in {0, 1}, k \in {"v", "i", "m"}}
+   \cup {Op("VerifyAndAdd", i, k) : i \in {1, 2}, k \in {"v", "i"}}
+   \cup {Op("ThresholdSignature", 0, "-"), Op("EnoughShares", 0, "-"), Op("HasShare", 0, "-")}
+
 Alpha == IF Alphabet = "full" THEN Ops
+         ELSE IF Alphabet = "core" THEN Core
          ELSE {o \in Ops : o.name \in {"TrustedAdd", "VerifyAndAdd", "ThresholdSignature", "EnoughShares"} /\ o.i \in Idx}
 
 Init == st = InitSt /\ hist = <<>>
